@@ -269,15 +269,15 @@ Proof.
   induction d as [|r IH|r IH|i IHi r IHr]; intros p cl nl Hc Hnd; cbn [bl nbreaks] in *.
   - exfalso. apply Hnd. constructor.
   - destruct (IH (fst p, S (snd p)) cl nl Hc Hnd) as (u & v & H1 & H2 & H3 & Hcl); cbn [fst] in *.
-    exists u, v. repeat split; try assumption. intros a b H. unfold aents in H. cbn [ents assoc] in H.
+    exists u, v. split; [lia|]. split; [lia|]. split; [lia|]. intros a b H. unfold aents in H. cbn [ents assoc] in H.
     destruct H as [H|H]; [discriminate|]. apply Hcl, H.
   - destruct (in_dec Nat.eq_dec cl (bl r cl nl)) as [Hin|Hin].
     + destruct (prefix_closed r (S (fst p), 0) cl nl Hc Hin) as (v & Hv & Hcl); cbn [fst] in *.
-      exists (S (fst p)), v. repeat split; try lia. exact Hcl.
+      exists (S (fst p)), v. split; [lia|]. split; [lia|]. split; [lia|]. exact Hcl.
     + destruct (NoDup_dec_nat (bl r cl nl)) as [Hn|Hn].
       { exfalso. apply Hnd. constructor; assumption. }
       destruct (IH (S (fst p), 0) cl nl Hc Hn) as (u & v & H1 & H2 & H3 & Hcl); cbn [fst] in *.
-      exists u, v. repeat split; try lia. exact Hcl.
+      exists u, v. split; [lia|]. split; [lia|]. split; [lia|]. exact Hcl.
   - set (p1 := (fst p, S (snd p))). set (q := adv i p1). set (q1 := (fst q, S (snd q))).
     assert (Hq : fst q = fst p + nbreaks i) by (unfold q; rewrite adv_fst; reflexivity).
     assert (Hq1 : fst q1 = fst q) by reflexivity.
@@ -287,7 +287,7 @@ Proof.
       { exfalso. apply Hnd. apply NoDup_app_intro; [exact Hni|exact Hnr|].
         intros x. apply bl_DP_disjoint, Hc. }
       destruct (IHr q1 cl (S nl + npairs i) ltac:(lia) Hnr) as (u & v & H1 & H2 & H3 & Hcl); cbn [fst] in *.
-      exists u, v. repeat split; try lia. intros a b H. rewrite aents_DP in H. cbn zeta in H.
+      exists u, v. split; [lia|]. split; [lia|]. split; [lia|]. intros a b H. rewrite aents_DP in H. cbn zeta in H.
       fold p1 in H. fold q in H. fold q1 in H.
       destruct H as [H|H]; [injection H as <- <-; lia|].
       apply in_app_or in H. destruct H as [H|[H|H]].
@@ -295,7 +295,7 @@ Proof.
       * injection H as <- <-. lia.
       * apply Hcl, H.
     + destruct (IHi p1 (S nl) (S nl) (le_n _) Hni) as (u & v & H1 & H2 & H3 & Hcl); cbn [fst] in *.
-      exists u, v. repeat split; try lia. intros a b H. rewrite aents_DP in H. cbn zeta in H.
+      exists u, v. split; [lia|]. split; [lia|]. split; [lia|]. intros a b H. rewrite aents_DP in H. cbn zeta in H.
       fold p1 in H. fold q in H. fold q1 in H.
       destruct H as [H|H]; [injection H as <- <-; lia|].
       apply in_app_or in H. destruct H as [H|[H|H]].
